@@ -360,6 +360,41 @@ def translate_npz():
             'Definition gen_npz_fixed_keys : list String.string := ["doflocs"%string; "t"%string].')
 
 
+TO_DICT = ['boundaries = None', 'subdomains = None',
+           'if self.boundaries is not None:\n    boundaries = {k: v.tolist() for k, v in self.boundaries.items()}',
+           'if self.subdomains is not None:\n    subdomains = {k: v.tolist() for k, v in self.subdomains.items()}',
+           'orientations = {}',
+           'if self.boundaries is not None:\n    orientations = {k: v.ori.tolist() for k, v in self.boundaries.items() '
+           'if isinstance(v, OrientedBoundary)}',
+           "return {'p': self.p.T.tolist(), 't': self.t.T.tolist(), 'boundaries': boundaries, 'subdomains': subdomains, "
+           "**({'orientations': orientations} if orientations else {})}"]
+FROM_DICT = ["if 'boundaries' in data and data['boundaries'] is not None:\n    data['boundaries'] = {k: np.array(v) "
+             "for k, v in data['boundaries'].items()}",
+             "for k, v in (data.pop('orientations', None) or {}).items():\n    data['boundaries'][k] = "
+             "OrientedBoundary(data['boundaries'][k], v)",
+             "if 'subdomains' in data and data['subdomains'] is not None:\n    data['subdomains'] = {k: np.array(v) "
+             "for k, v in data['subdomains'].items()}",
+             "data['doflocs'] = data.pop('p')", "data['_subdomains'] = data.pop('subdomains')",
+             "data['_boundaries'] = data.pop('boundaries')", 'return cls(**data)']
+
+
+def translate_dict():
+    """to_dict / from_dict: the tag part, statement-exact"""
+    tree = t2.parse(MESH)
+    td = [t2.src(s) for s in _strip_doc(t2.find_def(tree, 'to_dict', 'Mesh').body)]
+    fd = [t2.src(s) for s in _strip_doc(t2.find_def(tree, 'from_dict', 'Mesh').body)]
+    if td != TO_DICT:
+        raise TranslateError('to_dict: ' + repr(td))
+    if fd[1:] != FROM_DICT or not fd[0].startswith("if 'p' not in data or 't' not in data:"):
+        raise TranslateError('from_dict: ' + repr(fd))
+    return '''(* Mesh.to_dict / Mesh.from_dict, boundaries *)
+Definition gen_dict_boundaries (b : bdict) := map (fun kv => (fst kv, fst (snd kv))) b.        (* {k: v.tolist()} *)
+Definition gen_dict_orientations (b : bdict) :=                                              (* {k: v.ori.tolist() ... if oriented} *)
+  flat_map (fun kv => match snd (snd kv) with Some o => [(fst kv, o)] | None => [] end) b.
+Definition gen_dict_load (bs : list (String.string * list nat)) (os : list (String.string * list bool)) : bdict :=
+  map (fun kf => (fst kf, (snd kf, lookup (fst kf) os))) bs.  (* boundaries[k] = OrientedBoundary(boundaries[k], v) for k, v in orientations *)'''
+
+
 def translate_hex():
     """HEX_MAPPING / INV_HEX_MAPPING (T1: literal + exact evaluation of the module constants) and the
     places where to_meshio / from_meshio apply them (T2)"""
@@ -450,5 +485,5 @@ Require Import Model.C17_TagCodec.
 def translate():
     hx, tm, mt = translate_hex()
     codec, keys = translate_codec()
-    parts = [HEADER, codec, hx, 'Import String.   (* string literals below *)', keys, translate_npz()]
+    parts = [HEADER, codec, hx, translate_dict(), 'Import String.   (* string literals below *)', keys, translate_npz()]
     return '\n\n'.join(parts) + '\n', tm, mt
